@@ -65,6 +65,7 @@ func runC16(opt *Options) int {
 			func() layera.Kernel { k := kernelFileManager(); k.E2E = "c16"; return k }(),
 			{Name: "K8.parsedocstags", Pkg: "comments", Harness: "VerifHarness_C16_ParseDocsTags", Unwind: 16, E2E: "c16"},
 			{Name: "K8.loadertags", Pkg: "pkgload", Harness: "VerifHarness_C16_LoaderTags", Unwind: 16, E2E: "c16"},
+			{Name: "K8.loadertagsmany", Pkg: "pkgload", Harness: "VerifHarness_C16_LoaderTagsMany", Unwind: 128, E2E: "c16"},
 			kernelGenerateConverters("c16"),
 			{Name: "K8.run", Pkg: "cli", Harness: "VerifHarness_C17_Run", Unwind: 16, E2E: "c16", Stub: []string{"github.com/jmattheis/goverter/cli.Parse", "github.com/jmattheis/goverter.GenerateConverters"}},
 		},
